@@ -19,7 +19,8 @@ CONSTANTS TS, TE, MaxSp, N,
           IvCodes,                  \* averaging intervals: 0 = None, 100*i+j = [TS+i/2, TS+j/2]
           ThrCodes,                 \* filter thresholds: 100*p+q = p/q
           Sample,                   \* 0 = all lists; k > 0 = every train drawn from a random k-subset
-          PoolMode                  \* "all" | "deg" (degenerate trains only: empty, one spike, edge-only)
+          PoolMode,                 \* "all" | "deg" (degenerate trains only: empty, one spike, edge-only)
+          ErrorPaths                \* TRUE: also explore calls that the library rejects
 VARIABLES tr, call, res
 vars == <<tr, call, res>>
 Neg1 == -1
@@ -111,7 +112,8 @@ IdxSet == IF IdxMode = "none" THEN {Ident}
           ELSE IF IdxMode = "perms" THEN InjSeqs(N)       \* every ordering of the whole list
           ELSE UNION {InjSeqs(n) : n \in 2..N}
 NoCall == [fn |-> "none", idx |-> <<>>, iv |-> 0, thr |-> 0, norm |-> FALSE]
-NoRes == [t |-> "none", f |-> [x |-> <<>>, y1 |-> <<>>, y2 |-> <<>>], v |-> Zero, mat |-> <<>>, lst |-> <<>>, lst2 |-> <<>>]
+NoRes == [t |-> "none", f |-> [x |-> <<>>, y1 |-> <<>>, y2 |-> <<>>], v |-> Zero, mat |-> <<>>, lst |-> <<>>, lst2 |-> <<>>,
+          err |-> ""]
 DegTrains == {s \in AllTrains : Len(s) <= 1} \cup ({<<TS, TE>>, <<TS+1, TE-1>>} \cap AllTrains)
 BasePool == IF PoolMode = "deg" THEN DegTrains ELSE AllTrains
 \* a sampled pool always contains the empty train (lists with empty and repeated trains matter)
@@ -132,6 +134,18 @@ Measure(fn) == IF fn \in {"isi_profile", "isi_distance", "isi_matrix"} THEN "isi
                ELSE IF fn \in {"sync_profile", "sync", "sync_matrix"} THEN "sync" ELSE "order"
 \* the order / directionality functions do not accept an interval
 IvOk(fn, c) == c = 0 \/ fn \in {"isi_distance", "spike_distance", "sync", "isi_matrix", "spike_matrix", "sync_matrix"}
+\* ---- error paths (beyond the 20 properties; bound as advisory observations only)
+\*   an index outside the list            -> AssertionError ("Invalid index list.")
+\*   an averaging interval for the order / directionality functions -> NotImplementedError
+BadIdx == <<1, N+1>>
+IntervalUnsupported(fn) == fn \in {"order", "dir_matrix", "dir_values"}
+ChooseBad ==
+   /\ call.fn = "ready" /\ ErrorPaths
+   /\ \/ \E fn \in FnSet \ {"filter"} : call' = [fn |-> fn, idx |-> BadIdx, iv |-> 0, thr |-> 12, norm |-> FALSE]
+      \/ \E fn \in FnSet : IntervalUnsupported(fn) /\ call' = [fn |-> fn, idx |-> Ident, iv |-> 102, thr |-> 12, norm |-> FALSE]
+   /\ UNCHANGED <<tr, res>>
+IsBad(cl) == (\E k \in 1..Len(cl.idx) : cl.idx[k] > N) \/ (cl.iv # 0 /\ IntervalUnsupported(cl.fn))
+BadOutcome(cl) == IF \E k \in 1..Len(cl.idx) : cl.idx[k] > N THEN "raise:AssertionError" ELSE "raise:NotImplementedError"
 Choose ==
    /\ call.fn = "ready"
    /\ \E fn \in FnSet, idx \in IdxSet, c \in IvCodes, th \in ThrCodes, nm \in BOOLEAN :
@@ -155,13 +169,15 @@ Eval(cl) ==
    ELSE IF cl.fn = "dir_values" THEN [NoRes EXCEPT !.t = "values", !.lst = DirValues(sel)]
    ELSE [NoRes EXCEPT !.t = "filter", !.lst = Filter(tr, cl.thr, TRUE), !.lst2 = Filter(tr, cl.thr, FALSE)]
 Exec == /\ call.fn \notin {"none", "picked1", "ready"} /\ res.t = "none"
-        /\ res' = Eval(call) /\ UNCHANGED <<tr, call>>
-Next == PickFirst \/ PickRest \/ Choose \/ Exec
+        /\ res' = IF IsBad(call) THEN [NoRes EXCEPT !.t = "error", !.err = BadOutcome(call)] ELSE Eval(call)
+        /\ UNCHANGED <<tr, call>>
+Next == PickFirst \/ PickRest \/ Choose \/ ChooseBad \/ Exec
 Spec == Init /\ [][Next]_vars
-Done == res.t # "none"
+Finished == res.t # "none"
+Done == res.t \notin {"none", "error"}
 ----------------------------------------------------------------------------
 \* ---- properties
-sel0 == Sel(call.idx)
+sel0 == IF IsBad(call) THEN <<>> ELSE Sel(call.idx)
 ms0 == Measure(call.fn)
 \* C06: the multivariate ISI / SPIKE profile is at every time the mean of the bivariate profiles
 PointwiseMean == (Done /\ call.fn \in {"isi_profile", "spike_profile"}) =>
@@ -229,6 +245,8 @@ WellFormed == Done =>
          /\ \A k \in 1..(Len(res.f.x)-1) : res.f.x[k] <= res.f.x[k+1]
          /\ Len(res.f.y1) = Len(res.f.x) /\ Len(res.f.y2) = Len(res.f.x)
          /\ \A k \in 1..Len(res.f.y2) : RLt(Zero, res.f.y2[k]))
-Export == Done => PrintT(ToJson([k |-> "multi", ts |-> TS, te |-> TE, tr |-> tr, call |-> call, res |-> res,
+\* a rejected call never yields a value
+ErrorIsRejected == (res.t = "error") => (IsBad(call) /\ res.err \in {"raise:AssertionError", "raise:NotImplementedError"})
+Export == Finished => PrintT(ToJson([k |-> "multi", ts |-> TS, te |-> TE, tr |-> tr, call |-> call, res |-> res,
                                  mrts |-> mrts, mtau |-> mtau, ri |-> RIFlag, autosq |-> AutoSqList(tr, TS, TE)]))
 =============================================================================
